@@ -31,6 +31,8 @@ VARIABLE loose   \* the rest of the scenario is only observed (see Trusted): set
 NoProg == [p \in P |-> <<>>]
 NoTaskProg == [k \in 1..NT |-> <<>>]
 
+StOf(r, k) == IF k > NTk(r) THEN "new" ELSE r.task[k].st
+RanOf(r, k) == IF k > NTk(r) THEN 0 ELSE r.task[k].ran
 SitePc(s) ==
   CASE s = 0 -> {"idle"}
     [] s = 100 -> {"pin_read"} [] s = 101 -> {"pin_pub"} [] s = 102 -> {"pin_val"} [] s = 103 -> {"pin_reset"}
@@ -40,8 +42,6 @@ SitePc(s) ==
     [] OTHER -> {"?"}
 Supported == {"pin", "unpin", "react", "react_after", "react_after_panic", "flush", "defer", "advance", "hdrop"}
 
-StOf(r, k) == IF k > NTk(r) THEN "new" ELSE r.task[k].st
-RanOf(r, k) == IF k > NTk(r) THEN 0 ELSE r.task[k].ran
 ObsEq(r) ==
   /\ gep = r.gep
   /\ \A p \in P : /\ lpin[p] = r.thr[p].pin /\ (lpin[p] => lep[p] = r.thr[p].lep)
@@ -56,20 +56,11 @@ ObsEq(r) ==
 PcOk(r, p) == pc[p] = "ext" \/ pc[p] \in SitePc(r.thr[p].site)
 Settled(r) == (\A p \in P : PcOk(r, p) /\ (pc[p] = "idle" => ~InTask(p))) /\ ObsEq(r)
 
-SilentPcs == {"pin0", "pin_done", "unpin0", "uc_loop", "unpin_dec", "run", "defer_put", "defer_sched", "flush_sched",
-              "react_pin", "react_done", "uc_repin", "fin1", "fin2", "fin3"}
-Silent(p) == \/ PinDone(p) \/ DeferSched(p) \/ DeferPut(p) \/ FlushSched(p) \/ ReactPin(p) \/ ReactDone(p)
-             \/ Pin0(p) \/ Unpin0(p) \/ UcLoop(p) \/ UnpinDec(p) \/ Run(p) \/ TaskEnd(p) \/ UcRepin(p)
-             \/ Fin1(p) \/ Fin2(p) \/ Fin3(p)
-             \/ (pc[p] = "adv_scan" /\ reg[p].scan = {} /\ AdvScan(p))     \* the scan is over: no site of its own
-             \/ (pc[p] = "repin1" /\ reg[p].e = lep[p] /\ Repin1(p))       \* nothing to store: the code skips the store site
-             \/ (pc[p] = "fin1" /\ bag[p] = <<>> /\ Rec[l].thr[p].site = 120 /\ CallSub(p, "push0", "fin2") /\ UAll)  \* finalize pushes a bag of internal garbage
-Atomic(p) == \/ PinRead(p) \/ PinPublish(p) \/ PinValidate(p) \/ PinReset(p)
-             \/ Adv0(p) \/ AdvScan(p) \/ AdvStore(p) \/ Push0(p) \/ Push1(p) \/ ColPop(p)
-             \/ Repin0(p) \/ Repin1(p) \/ UnpinStore(p) \/ Fin0(p)
 IsIdle(p) == pc[p] = "idle" /\ ~InTask(p)
-TCall(p, n) ==
-  /\ IsIdle(p) /\ UNCHANGED <<ip, tctx>>
+\* the body of call n of thread p; `nested`: issued by the deferred function p is running (no `start` line of its
+\* own: such calls are silent alternatives to the function's end)
+CallBody(p, n, nested) ==
+  /\ pc[p] = "idle" /\ InTask(p) = nested /\ UNCHANGED <<ip, tctx>>
   /\ CASE n = "pin" ->
              /\ CallSub(p, "pin0", "pin_done")
              /\ UNCHANGED <<gep, lep, lpin, gc, hc, coll, must, bag, queue, alive, reg, ug, inst, act, dep, st, ran>>
@@ -89,7 +80,8 @@ TCall(p, n) ==
              /\ gc[p] > 0
              \* (the real bag may hold only the collector's own garbage - an unlinked registry entry, a retired queue
              \*  node - which the model abstracts: it is pushed all the same, as a bag without functions)
-             /\ IF bag[p] # <<>> \/ Rec[l].thr[p].bag > 0 THEN CallSub(p, "push0", "flush_sched") ELSE Goto(p, "flush_sched") /\ UNCHANGED ret
+             /\ IF bag[p] # <<>> \/ Rec[l].thr[p].bag > 0 \/ (nested /\ Rec[l].thr[p].site = 120)
+                  THEN CallSub(p, "push0", "flush_sched") ELSE Goto(p, "flush_sched") /\ UNCHANGED ret
              /\ UNCHANGED <<gep, lep, lpin, gc, hc, coll, must, bag, queue, alive, reg, ug, inst, act, dep, st, ran>>
        [] n \in {"react", "react_after", "react_after_panic"} ->
              /\ ug[p] > 0
@@ -106,11 +98,33 @@ TCall(p, n) ==
              /\ IF gc[p] = 0 /\ hc[p] = 1 THEN CallSub(p, "fin0", "idle") ELSE Goto(p, "idle") /\ UNCHANGED ret
              /\ UNCHANGED <<gep, lep, lpin, gc, coll, must, bag, queue, alive, reg, ug, inst, act, dep, st, ran>>
        [] OTHER -> FALSE
+TCall(p, n) == CallBody(p, n, FALSE)
+\* (guards: a nested call is only tried when the line shows its effect - otherwise the silent closure would pin,
+\*  unpin and defer for ever)
+NCall(p) == \/ gc[p] < Rec[l].thr[p].gc /\ CallBody(p, "pin", TRUE)
+            \/ gc[p] > Rec[l].thr[p].gc /\ CallBody(p, "unpin", TRUE)
+            \/ CallBody(p, "flush", TRUE)
+            \/ (\E k \in Task : st[k] = "new" /\ StOf(Rec[l], k) = "bag") /\ CallBody(p, "defer", TRUE)
+
+SilentPcs == {"pin0", "pin_done", "unpin0", "uc_loop", "unpin_dec", "run", "defer_put", "defer_sched", "flush_sched",
+              "react_pin", "react_done", "uc_repin", "fin1", "fin2", "fin3"}
+Silent(p) == \/ PinDone(p) \/ DeferSched(p) \/ DeferPut(p) \/ FlushSched(p) \/ ReactPin(p) \/ ReactDone(p)
+             \/ Pin0(p) \/ Unpin0(p) \/ UcLoop(p) \/ UnpinDec(p) \/ Run(p) \/ TaskEnd(p) \/ UcRepin(p)
+             \/ Fin1(p) \/ Fin2(p) \/ Fin3(p) \/ NCall(p)
+             \/ (pc[p] = "adv_scan" /\ reg[p].scan = {} /\ AdvScan(p))     \* the scan is over: no site of its own
+             \* an entry whose participant has left meanwhile is unlinked by the traversal, not visited: no scan site
+             \/ (pc[p] = "adv_scan" /\ \E q \in reg[p].scan : ~alive[q] /\ reg' = [reg EXCEPT ![p].scan = @ \ {q}]
+                                      /\ UNCHANGED <<gep, lep, lpin, gc, hc, coll, must, bag, queue, alive, pc, ret, ip, tctx, ug, inst, act, dep, st, ran>>)
+             \/ (pc[p] = "repin1" /\ reg[p].e = lep[p] /\ Repin1(p))       \* nothing to store: the code skips the store site
+             \/ (pc[p] = "fin1" /\ bag[p] = <<>> /\ Rec[l].thr[p].site = 120 /\ CallSub(p, "push0", "fin2") /\ UAll)  \* finalize pushes a bag of internal garbage
+Atomic(p) == \/ PinRead(p) \/ PinPublish(p) \/ PinValidate(p) \/ PinReset(p)
+             \/ Adv0(p) \/ AdvScan(p) \/ AdvStore(p) \/ Push0(p) \/ Push1(p) \/ ColPop(p)
+             \/ Repin0(p) \/ Repin1(p) \/ UnpinStore(p) \/ Fin0(p)
 
 \* ---- consuming a line
 \* (the finisher and some scenarios run without preemption at EBR sites, others with queue/list sites as well:
 \*  only lines recorded with exactly the EBR site class are held to the step relation)
-Trusted(r) == r.k \in {"fin", "abort"} \/ r.nest \/ r.mask # 2
+Trusted(r) == r.k \in {"fin", "abort"} \/ r.mask # 2
 Skip(r) == \/ r.k = "reset" \/ Trusted(r) \/ loose
            \/ (r.k = "start" /\ r.opn \notin Supported)
            \/ (r.t # 0 /\ pc[r.t] = "ext")
